@@ -32,6 +32,13 @@ func scenarioC07(rc *RunCtx) {
 	}
 	if a.HistoryHash() != b.HistoryHash() {
 		rc.V(viol("C07.R1", "run-differs", "two runs with -rapid.seed=%d under identical simulated time differ: %s", fl.Seed, diffRuns(a, b)))
+	} else {
+		// a third execution: a run that is only sometimes different must not slip through (nor fail to replay)
+		b2 := RunCheck(prog, RunOpt{Name: name, Dir: rc.FreshDir(), Flags: fl, Clock: pol, WithCtx: withCtx})
+		rc.SimNs += int64(b2.SimElapsed)
+		if !b2.W.Overrun && a.HistoryHash() != b2.HistoryHash() {
+			rc.V(viol("C07.R1", "run-differs", "two runs with -rapid.seed=%d under identical simulated time differ: %s", fl.Seed, diffRuns(a, b2)))
+		}
 	}
 	rc.Nontriv = failedVerdict(a)
 	if !failedVerdict(a) {
